@@ -218,6 +218,7 @@ impl C10 {
         for _ in 0..3 {
             schedules.push(gen_async_runtime(&mut t));
         }
+        let mut polls = 0u64;
         for rt in &schedules {
             match self.run_schedule(c, expected, rt, rep) {
                 Ok((_, res)) => {
@@ -225,6 +226,7 @@ impl C10 {
                     if multi >= 2 && res.out_of_order > 0 {
                         rep.nontrivial = true;
                     }
+                    polls = res.polls;
                 }
                 Err(f) => {
                     rep.failure = Some(f);
@@ -232,10 +234,38 @@ impl C10 {
                 }
             }
         }
+        // "It never waits on something that cannot complete": a provider that asks the solver
+        // to cancel may stop serving - requests that are outstanding at that moment never
+        // complete. solve must still return (Cancelled), whatever is in flight.
+        // (Not with the re-entrant sort provider: there a poll can be made on behalf of the
+        // provider's own nested cache call, whose error `sort_candidates` - which returns
+        // nothing - cannot hand back to the solver.)
+        if polls > 0 && !self.reentrant_sort {
+            let k = (t.next() as u64 * polls) >> 16;
+            let cancel = if t.chance(1, 2) { Cancel::Sticky(k) } else { Cancel::Transient(k) };
+            let rt = &schedules[t.below(schedules.len())];
+            let mut session = Session::new(c.u.clone(), rt, None);
+            session.provider().freeze_on_cancel.set(true);
+            let res = session.solve(&c.problem, cancel, false, false);
+            rep.evaluations += 1;
+            if matches!(res.outcome, Outcome::Cancelled(_)) {
+                rep.labels.push("cancelled-provider-stops-serving");
+            }
+            let stuck = matches!(res.outcome, Outcome::Deadlock);
+            if let Some(f) = abnormal(&res.outcome, cancel) {
+                rep.failure = Some(Failure {
+                    signature: if stuck { "deadlock-after-cancellation".into() } else { f.signature.clone() },
+                    detail: format!(
+                        "schedule {rt:?}, {cancel:?}, the provider completes nothing after it signalled cancellation: {}",
+                        if stuck { "solve keeps waiting for requests that can never complete".to_string() } else { f.detail }
+                    ),
+                });
+            }
+        }
     }
 }
 
-struct_property!(C10, "C10", "tape -> universe + problem; the provider's futures are owned by the harness scheduler: (sampled stage) FIFO, LIFO, complete-everything and 3 generated completion orders (incl. immediately-ready calls); (reentrant-sort stage) the same with a provider whose sort_candidates itself asks the SolverCache for the dependencies of the candidates it sorts and for the candidates of the packages those mention (conda-style ranking; such nested requests can be the first request for a package); (exhaustive stage) EVERY interleaving of small cases by DFS over the scheduler's choice tree (capped, cap counted). For every schedule: solve terminates (deadlock = root pending, not woken, nothing outstanding; step budget), the verdict equals the reference resolver's, Ok(S) passes the C01 predicate, and no get_candidates / get_dependencies key is requested twice. Non-trivial: >=2 quiescent points with >=2 outstanding requests and a completion order different from issue order. Distinct = distinct hash of case.");
+struct_property!(C10, "C10", "tape -> universe + problem; the provider's futures are owned by the harness scheduler: (sampled stage) FIFO, LIFO, complete-everything and 3 generated completion orders (incl. immediately-ready calls); (reentrant-sort stage) the same with a provider whose sort_candidates itself asks the SolverCache for the dependencies of the candidates it sorts and for the candidates of the packages those mention (conda-style ranking; such nested requests can be the first request for a package); (exhaustive stage) EVERY interleaving of small cases by DFS over the scheduler's choice tree (capped, cap counted). For every schedule: solve terminates (deadlock = root pending, not woken, nothing outstanding; step budget), the verdict equals the reference resolver's, Ok(S) passes the C01 predicate, and no get_candidates / get_dependencies key is requested twice; plus one run per case in which the provider signals cancellation at a generated poll and from then on completes NOTHING (outstanding requests stay outstanding): solve must still return. Non-trivial: >=2 quiescent points with >=2 outstanding requests and a completion order different from issue order. Distinct = distinct hash of case.");
 
 // =============================================================================== C11
 
